@@ -252,7 +252,7 @@ func pipeline(env *Env, chk *Check, res *Result, cases []Case, open map[string]F
 			nontriv = chk.Cover(t, res.Cov)
 		}
 		if nontriv {
-			res.Nontrivial[caseHash(t)] = true
+			res.Nontrivial[caseHash(inByID[id])] = true
 		}
 	}
 	// samples: the first few traces, trimmed
@@ -316,7 +316,7 @@ func pipeline(env *Env, chk *Check, res *Result, cases []Case, open map[string]F
 				continue
 			}
 		}
-		h := caseHash(c)
+		h := caseHash(inByID[id])
 		path := filepath.Join("replays", fmt.Sprintf("%s-%s.json", chk.ID, h))
 		rec := map[string]any{"property": chk.ID, "trace_module": chk.TraceModule, "clause": why, "event": bs[0].Ev,
 			"case": inByID[id], "trace": reTrace[id]}
